@@ -22,6 +22,12 @@ func ZZ_C20_Provider() {
 	// what Started does before touching the network
 	s.members.Add(c.Member())
 	uni := zzUniverse(c.Member(), U)
+	if zzrt.Param("SHARE") == 1 {
+		// a second member on member 1's address (a node restarted under a new ID on a fixed address): a report for
+		// that address removes one member that has it, each time, for as long as there is one
+		uni = append(uni, &Member{ID: "m1x", Host: uni[1].Host, Kinds: uni[1].Kinds, Region: "default"})
+		U = len(uni)
+	}
 
 	in := make([]bool, U)
 	in[0] = true
@@ -78,11 +84,20 @@ func ZZ_C20_Provider() {
 			if i < U {
 				addr = uni[i].Host
 			}
-			if i >= U || !in[i] {
+			var cands []int // members that have the reported address
+			for k := 1; k < U; k++ {
+				if in[k] && uni[k].Host == addr {
+					cands = append(cands, k)
+				}
+			}
+			if len(cands) == 0 {
 				zzrt.Reach("unreachable-non-member")
 			} else {
 				zzrt.Reach("unreachable-member")
 				mustTell = true
+				if len(cands) > 1 {
+					zzrt.Reach("two-members-on-the-reported-address")
+				}
 			}
 			// the report arrives the way it does in production: the provider's event-stream child receives the
 			// engine's RemoteUnreachableEvent and turns it into a message to the provider
@@ -98,8 +113,20 @@ func ZZ_C20_Provider() {
 			for _, g := range prov.Got[provBefore:] {
 				deliver(g.Msg, g.Sender)
 			}
-			if i < U {
-				in[i] = false
+			if len(cands) > 0 && !escaped {
+				// exactly one of the members on that address is gone (which one is not specified)
+				gone := -1
+				n := 0
+				for _, k := range cands {
+					if !s.members.Contains(uni[k]) {
+						gone = k
+						n++
+					}
+				}
+				zzrt.Assert(n == 1, "C20:unreachable-report-does-not-remove-exactly-one-member-on-that-address")
+				if gone >= 0 {
+					in[gone] = false
+				}
 			}
 		}
 		zzrt.Assert(!escaped, "C20:provider-panics")
